@@ -56,7 +56,7 @@ def observe(edges, scheme=None):
     # "however ... the skeleton was written down": the part names are distinct strings of several styles
     scheme = NAME_SCHEMES[(sum((k + 1) * (7 * a + b) for k, (a, b) in enumerate(edges)) + nn) % len(NAME_SCHEMES)] if scheme is None else scheme
     names = part_names(scheme, nn)
-    rec = dict(edges=[list(e) for e in edges], ord=[], ord2=[], raised="", names=scheme)
+    rec = dict(edges=[list(e) for e in edges], ord=[], ord2=[], raised="", names=scheme, grouped=0, nn=0)
     try:
         rec["ord"] = [int(x) for x in toposort_edges([EdgeType(s, d) for s, d in edges])]
         named = [(names[s], names[d]) for s, d in edges]
@@ -68,6 +68,25 @@ def observe(edges, scheme=None):
         else:
             sc = PAFScorer(part_names=names, edges=named, pafs_stride=2)
         rec["ord2"] = [int(x) for x in sc.sorted_edge_inds]
+        # the order as it is USED: group one animal that has one peak per node and an accepted match on every edge - every
+        # body part must end up in the one instance ("no body part is left ungrouped because of the way the skeleton was
+        # written down")
+        import torch
+        from sleap_nn.inference.paf_grouping import group_instances_sample
+        E = len(edges)
+        inst, _ps, _sc = group_instances_sample(
+            peaks_sample=torch.tensor([[10.0 * k, 5.0 * k] for k in range(nn)], dtype=torch.float32),
+            peak_scores_sample=torch.ones(nn, dtype=torch.float32),
+            peak_channel_inds_sample=torch.arange(nn, dtype=torch.int32),
+            match_edge_inds_sample=torch.arange(E, dtype=torch.int32),
+            match_src_peak_inds_sample=torch.zeros(E, dtype=torch.int32),
+            match_dst_peak_inds_sample=torch.zeros(E, dtype=torch.int32),
+            match_line_scores_sample=torch.ones(E, dtype=torch.float32),
+            n_nodes=nn, sorted_edge_inds=sc.sorted_edge_inds, edge_types=sc.edge_types, min_instance_peaks=0)
+        import numpy as _np
+        inst = _np.asarray(inst)
+        rec["grouped"] = int(_np.isfinite(inst[0]).all(axis=-1).sum()) if inst.shape[0] == 1 else -int(inst.shape[0])
+        rec["nn"] = nn
         if [tuple(int(x) for x in e) for e in sc.edge_inds] != [tuple(e) for e in edges]:
             raise AssertionError("PAFScorer.edge_inds %s are not the skeleton's edges %s (names %s)" % (list(sc.edge_inds), edges, names))
     except Exception as e:  # totality is part of the property
